@@ -44,6 +44,30 @@ EffTimes(doc, tms, pr) == IF pr.mask THEN tms ELSE [k \in DOMAIN KeptPos(doc, pr
 Eff(c, pr) == [d \in DOMAIN c |-> EffDoc(c[d], pr)]
 EffT(c, ts, pr) == [d \in DOMAIN c |-> EffTimes(c[d], ts[d], pr)]
 
+\* ---------------------------------------------------------------- variable window radii
+\* window_functions = "variable" with window_args power p (w.var = p, here 0 or 2; w.var = -1: the radius table is used as given).
+\* The radius of token t is  ws * f_t^(p-1) / sum_s f_s^p  with f the frequencies of the learned vocabulary in the ORIGINAL corpus
+\* (pruned tokens still count in the total), values in (0,1) raised to 1, rounded half-to-even; the mask token gets the smallest
+\* un-rounded value of the vocabulary, or 0 when it is nullified.  For p in {0, 2} the value is a rational <<num, den>>:
+\*    p = 0 :  ws * N / (n * count_t)          p = 2 :  ws * count_t * N / sum_s count_s^2
+Count(c, t) == SumSeq([d \in DOMAIN c |-> Cardinality({p \in DOMAIN c[d] : c[d][p] = t})])
+NTok(c) == SumSeq([d \in DOMAIN c |-> Len(c[d])])
+Vocab(c, pr) == {t \in KeptTok(pr) : Count(c, t) > 0}
+VarVal(w, c, pr, t) == IF w.var = 0 THEN <<w.ws * NTok(c), Cardinality(Vocab(c, pr)) * Count(c, t)>>
+                       ELSE <<w.ws * Count(c, t) * NTok(c), SumOver(Vocab(c, pr), LAMBDA s : Count(c, s) * Count(c, s))>>
+MinVal(S) == CHOOSE x \in S : \A y \in S : x[1] * y[2] <= y[1] * x[2]
+RoundHE(x) == LET q == x[1] \div x[2]  r == x[1] % x[2] IN
+              IF x[1] < x[2] THEN 1
+              ELSE IF 2 * r < x[2] THEN q ELSE IF 2 * r > x[2] THEN q + 1 ELSE IF q % 2 = 0 THEN q ELSE q + 1
+Tie(x) == x[1] >= x[2] /\ 2 * (x[1] % x[2]) = x[2]
+VarRadius(w, c, pr, nullify) == [i \in 1..(V + 1) |->
+    IF i - 1 = V THEN (IF nullify THEN 0 ELSE RoundHE(MinVal({VarVal(w, c, pr, s) : s \in Vocab(c, pr)})))
+    ELSE IF (i - 1) \in Vocab(c, pr) THEN RoundHE(VarVal(w, c, pr, i - 1)) ELSE 1]
+Resolve(cfg, c, pr) == [cfg EXCEPT !.wins = [i \in DOMAIN cfg.wins |->
+    IF cfg.wins[i].var < 0 THEN cfg.wins[i] ELSE [cfg.wins[i] EXCEPT !.radius = VarRadius(cfg.wins[i], c, pr, cfg.nullify)]]]
+\* named precondition of the exact statement: no value lies exactly on a rounding tie (the implementation computes it in floating point)
+VarOK(cfg, c, pr) == \A i \in DOMAIN cfg.wins : cfg.wins[i].var >= 0 => \A s \in Vocab(c, pr) : ~Tie(VarVal(cfg.wins[i], c, pr, s))
+
 \* context positions of window w around position p of doc, nearest first; never outside doc
 Ctx(doc, p, w) == LET r == w.radius[doc[p] + 1] IN
                   IF w.orient = "after"
@@ -72,37 +96,45 @@ DeclCell(cfg, c, ts, i, a, b) ==
           IN SumSeq([j \in DOMAIN cx |-> IF c[d][cx[j]] = b THEN w.mix * KNum(cfg, w, c[d], ts[d], p, j, cx[j]) ELSE 0])])])
 EC == Eff(corpus, Prunes[pi])
 ET == EffT(corpus, times, Prunes[pi])
-Refines == done /\ Plain(Cfgs[ci]) =>
-   LET cfg == Cfgs[ci]  cs == Cells(cfg, EC, ET) IN
+CF == Resolve(Cfgs[ci], corpus, Prunes[pi])    \* the configuration with its variable radii resolved on this corpus
+Refines == done /\ Plain(CF) =>
+   LET cfg == CF  cs == Cells(cfg, EC, ET) IN
    \A i \in DOMAIN IWins(cfg), a \in Tok, b \in Tok :
        DeclCell(cfg, EC, ET, i, a, b) = CellInt(cs, <<i, a, b>>, KDen(cfg))
 \* with constant radii and no normalisation / offset the 'before' block of a directional window is
 \* the transpose of its 'after' block
-BeforeIsTransposeOfAfter == done /\ Plain(Cfgs[ci]) /\ ~Cfgs[ci].nullify =>
-   LET cfg == Cfgs[ci]  ws == IWins(cfg) IN
+BeforeIsTransposeOfAfter == done /\ Plain(CF) /\ ~CF.nullify =>
+   LET cfg == CF  ws == IWins(cfg) IN
    \A i, k \in DOMAIN ws :
       (ws[i].u = ws[k].u /\ ws[i].orient = "before" /\ ws[k].orient = "after" /\ ConstRadius(ws[i])) =>
          \A a, b \in Tok : DeclCell(cfg, EC, ET, i, a, b) = DeclCell(cfg, EC, ET, k, b, a)
 \* every window total is a probability vector when window normalisation is on
-WindowMassOne == done /\ Cfgs[ci].wnorm =>
-   \A d \in DOMAIN EC : \A p \in DOMAIN EC[d] : MassOne(EventsAt(Cfgs[ci], EC[d], ET[d], p))
+WindowMassOne == done /\ CF.wnorm =>
+   \A d \in DOMAIN EC : \A p \in DOMAIN EC[d] : MassOne(EventsAt(CF, EC[d], ET[d], p))
 \* the timed weights depend on time differences only
 Shift(ts, s) == [d \in DOMAIN ts |-> [p \in DOMAIN ts[d] |-> ts[d][p] + s]]
-ShiftInvariant == done /\ TIMED => Events(Cfgs[ci], EC, Shift(ET, 1000)) = Events(Cfgs[ci], EC, ET)
+ShiftInvariant == done /\ TIMED => Events(CF, EC, Shift(ET, 1000)) = Events(CF, EC, ET)
 \* C14: masking keeps every position, deleting keeps exactly the kept tokens
 MaskKeepsPositions == done => \A d \in DOMAIN corpus :
    IF Prunes[pi].mask THEN Len(EC[d]) = Len(corpus[d]) /\ \A p \in DOMAIN corpus[d] : (EC[d][p] = V) = (corpus[d][p] \in Prunes[pi].excluded)
    ELSE Len(EC[d]) = Cardinality({p \in DOMAIN corpus[d] : corpus[d][p] \notin Prunes[pi].excluded}) /\ \A p \in DOMAIN EC[d] : EC[d][p] # V
 \* C14: with nullify_mask the mask's row and every column referring to it are zero, and (without normalisation) every other
 \* cell equals the cell of the masked computation: only the mask's own contributions are removed
-NullifyRemovesOnlyTheMask == done /\ Cfgs[ci].nullify =>
-   LET cfg == Cfgs[ci]  plain == [cfg EXCEPT !.nullify = FALSE,
-                                             !.wins = [i \in DOMAIN cfg.wins |-> [cfg.wins[i] EXCEPT !.radius = [t \in DOMAIN @ |-> @[1]]]]]
+NullifyRemovesOnlyTheMask == done /\ CF.nullify =>
+   LET cfg == CF  plain == [cfg EXCEPT !.nullify = FALSE]
        cs == Cells(cfg, EC, ET) IN
    /\ \A k \in DOMAIN cs : k[2] # V /\ k[3] # V
-   /\ (Plain(cfg) /\ (\A i \in DOMAIN cfg.wins : \A t \in 1..V : cfg.wins[i].radius[t] = cfg.wins[i].radius[1]) =>
-          \A i \in DOMAIN IWins(cfg), a \in 0..(V - 1), b \in 0..(V - 1) :
-             DeclCell(cfg, EC, ET, i, a, b) = DeclCell(plain, EC, ET, i, a, b))
+   /\ (Plain(cfg) => \A i \in DOMAIN IWins(cfg), a \in 0..(V - 1), b \in 0..(V - 1) :
+                        DeclCell(cfg, EC, ET, i, a, b) = DeclCell(plain, EC, ET, i, a, b))
+\* variable radii: every vocabulary token sees at least its neighbour, the nullified mask sees nothing, and with p = 0 (p = 2) a
+\* rarer token never has a smaller (larger) radius than a more frequent one
+VariableRadiiWellFormed == done =>
+   \A i \in DOMAIN Cfgs[ci].wins : Cfgs[ci].wins[i].var >= 0 =>
+      LET rad == CF.wins[i].radius  voc == Vocab(corpus, Prunes[pi]) IN
+      /\ \A t \in voc : rad[t + 1] >= 1
+      /\ (CF.nullify => rad[V + 1] = 0)
+      /\ \A s, t \in voc : Count(corpus, s) <= Count(corpus, t) =>
+            IF Cfgs[ci].wins[i].var = 0 THEN rad[s + 1] >= rad[t + 1] ELSE rad[s + 1] <= rad[t + 1]
 
 \* ---------------------------------------------------------------- C11: n_iter = 0, epsilon > 0 (integers only)
 \* L1-normalise every column, then zero the entries below epsilon = en/ed:  keep iff  P * ed >= en * colsum;  value P / colsum
@@ -112,8 +144,8 @@ ColTotal(cfg, cs, b, c) == SumOver({k \in DOMAIN cs : k[1] = b /\ k[3] = c}, LAM
 Thresh(cfg, cs, e) == {<<k, PlainVal(cfg, cs, k), ColTotal(cfg, cs, k[1], k[3])>> :
                         k \in {kk \in DOMAIN cs : PlainVal(cfg, cs, kk) * e[2] >= e[1] * ColTotal(cfg, cs, kk[1], kk[3])}}
 \* consequences stated by C11: every kept entry is at least epsilon and at most 1, every column sums to at most 1
-ThreshOK == done /\ Plain(Cfgs[ci]) =>
-   \A i \in DOMAIN Eps : LET cs == Cells(Cfgs[ci], EC, ET)  th == Thresh(Cfgs[ci], cs, Eps[i]) IN
+ThreshOK == done /\ Plain(CF) =>
+   \A i \in DOMAIN Eps : LET cs == Cells(CF, EC, ET)  th == Thresh(CF, cs, Eps[i]) IN
       /\ \A t \in th : t[2] > 0 /\ t[2] <= t[3] /\ t[2] * Eps[i][2] >= Eps[i][1] * t[3]
       /\ \A t \in th : SumOver({u \in th : u[1][1] = t[1][1] /\ u[1][3] = t[1][3]}, LAMBDA u : u[2]) <= t[3]
 ThreshJson(cfg, cs) == LET ws == IWins(cfg) IN
@@ -130,13 +162,14 @@ NewDoc == /\ ~done /\ Len(corpus) < MaxDocs
           /\ corpus' = Append(corpus, <<>>) /\ times' = Append(times, <<>>) /\ UNCHANGED <<ci, pi, done>>
 NonEmpty(c) == \E d \in DOMAIN c : c[d] # <<>>
 \* named precondition: some kept token remains (otherwise the implementation raises 'Token dictionary is empty')
-Finish == /\ ~done /\ NonEmpty(Eff(corpus, [Prunes[pi] EXCEPT !.mask = FALSE])) /\ done' = TRUE /\ UNCHANGED <<corpus, times, ci, pi>>
+Finish == /\ ~done /\ NonEmpty(Eff(corpus, [Prunes[pi] EXCEPT !.mask = FALSE])) /\ VarOK(Cfgs[ci], corpus, Prunes[pi])
+          /\ done' = TRUE /\ UNCHANGED <<corpus, times, ci, pi>>
 Next == (\E t \in 0..(V - 1), g \in Gaps : AddTok(t, g)) \/ NewDoc \/ Finish
 Spec == Init /\ [][Next]_vars
 
 EmitInv == IF EMIT /\ done
-           THEN PrintT(ToJson([corpus |-> corpus, times |-> times, ci |-> ci, pi |-> pi,
-                               cells |-> CellsJson(Cfgs[ci], Cells(Cfgs[ci], EC, ET)),
-                               thresh |-> IF Plain(Cfgs[ci]) /\ Eps # <<>> THEN ThreshJson(Cfgs[ci], Cells(Cfgs[ci], EC, ET)) ELSE <<>>]))
+           THEN PrintT(ToJson([corpus |-> corpus, times |-> times, ci |-> ci, pi |-> pi, radii |-> [i \in DOMAIN CF.wins |-> CF.wins[i].radius],
+                               cells |-> CellsJson(CF, Cells(CF, EC, ET)),
+                               thresh |-> IF Plain(CF) /\ Eps # <<>> THEN ThreshJson(CF, Cells(CF, EC, ET)) ELSE <<>>]))
            ELSE TRUE
 ====
